@@ -134,6 +134,22 @@ static void do_case(vh::Reader& r, vh::Out& o)
 		o.w("|");
 		o.f(CDF_Gauss(q, mu, s));
 	}
+	else if(op == "inverf")
+	{
+		double p = r.num();
+		double e = Inv_Erf(p);
+		o.f(e);
+		o.w("|");
+		o.f(erf(e));
+	}
+	else if(op == "quantilelib")
+	{
+		double p = r.num(), mu = r.num(), s = r.num();
+		double q = Quantile_Gauss(p, mu, s);
+		o.f(q);
+		o.w("|");
+		o.f(CDF_Gauss(q, mu, s));
+	}
 	else if(op == "lik")
 	{
 		double s = r.num();
@@ -320,6 +336,15 @@ static void do_case(vh::Reader& r, vh::Out& o)
 		o.f(GammaLn(r.num()));
 	else if(op == "d_inv_erf")
 		o.f(Inv_Erf(r.num()));
+	else if(op == "d_find_root")
+	{
+		// Find_Root on erf(x) - p, as Inv_Erf states its request; p is recovered from the function value at 0 (= -p)
+		double xl = r.num(), xr = r.num(), acc = r.num();
+		r.num();
+		double p = -r.num();
+		r.num();
+		o.f(Find_Root([p](double x) { return erf(x) - p; }, xl, xr, acc));
+	}
 	else if(op == "d_binom")
 	{
 		long n = r.integer(), k = r.integer();
